@@ -31,8 +31,8 @@ F9 = "F9-final-save-skipped-after-restoring-older-step-into-same-directory"
 
 def plan(tier):
     if tier == "quick":
-        return dict(shards=16, examples=64, time_budget_s=800, min_nontrivial=16, shrink_cap_s=120)
-    return dict(shards=16, examples=960, time_budget_s=3400, min_nontrivial=250)
+        return dict(shards=16, examples=64, time_budget_s=800, min_nontrivial=8, shrink_cap_s=120)
+    return dict(shards=16, examples=960, time_budget_s=3400, min_nontrivial=100)
 
 
 def strategy(tier, shard):
